@@ -219,6 +219,18 @@ func FillTable(r1, r2 Reg, i int) Opcode {
 	return mkType6(On, r1, r2, Index8FromInt(i))
 }
 
+// FillTableFrom encodes fill r1, r3, r2
+//
+// This fills the table r1 with all values from r2 (as an etc vector) starting
+// from the index contained in r3, which must be a value register containing an
+// integer.
+func FillTableFrom(r1, r2, r3 Reg) Opcode {
+	if r3.IsCell() {
+		panic(newLimitError("fill table index must be in a value register"))
+	}
+	return mkType6(On, r1, r2, Index8(r3.Idx())) | type6IdxRegFlag
+}
+
 // PrepForLoop makes sure rStart, rStep, rStop are all numbers and converts
 // rStart and rStep to the same numeric type. If the for loop should already
 // stop then rStart is set to nil
